@@ -396,6 +396,9 @@ func (a *Analysis) CheckC02(rep *Report) {
 // ---------------------------------------------------------------------------
 // C03 – one byte order per protocol
 
+// numberAtom: layout kinds that are one number on the wire.
+var numberAtom = map[string]bool{"int": true, "len": true, "checksum": true, "const": true}
+
 func orderAtoms(f *FieldLayout, visit func(what, order string, f *FieldLayout)) {
 	switch f.Kind {
 	case "int", "len", "checksum", "const":
@@ -531,7 +534,7 @@ func (a *Analysis) CheckC03(rep *Report, tier string) {
 				switch {
 				case f.Kind == "irregular":
 					bad = f.Note
-				case main != nil && len(main.Fields) == len(pl.Layout.Fields) && f.Kind != main.Fields[i].Kind:
+				case main != nil && len(main.Fields) == len(pl.Layout.Fields) && f.Kind != main.Fields[i].Kind && !(numberAtom[f.Kind] && numberAtom[main.Fields[i].Kind]):
 					multi := false
 					orderAtoms(main.Fields[i], func(_, order string, _ *FieldLayout) {
 						if order != "" {
@@ -552,6 +555,22 @@ func (a *Analysis) CheckC03(rep *Report, tier string) {
 			if !pl.BodyNil {
 				established("Encode", pl, tl.EncMain.Layout)
 			}
+		}
+		// byte order must not depend on what the checksum registry holds: the success paths on which a service is
+		// missing or of another type (pruned elsewhere under the start-up assumption) are judged here as well
+		inEnc := map[*Path]bool{}
+		for _, pl := range tl.R.Enc {
+			inEnc[pl.Path] = true
+		}
+		for _, p := range tl.R.EncPaths {
+			if pathKind(p) != "ok" || inEnc[p] {
+				continue
+			}
+			pl := a.encLayout(ct, p)
+			if !pl.BodyNil {
+				established("Encode", pl, tl.EncMain.Layout)
+			}
+			checkLayout("Encode", pl.Layout)
 		}
 		for _, pl := range tl.R.Dec {
 			established("Decode", pl, tl.DecMain.Layout)
@@ -948,7 +967,10 @@ func (a *Analysis) primitiveMirror() (problems []string, pos []string, n int) {
 			var fs []*FieldLayout
 			if isReader {
 				fs = c.extractDec(p.Events, func(ids []int, loop int) (string, int, *Val, bool) {
-					for _, rv := range p.Ret {
+					for ri, rv := range p.Ret {
+						if ri < len(p.RetContent) && p.RetContent[ri] != nil {
+							rv = p.RetContent[ri]
+						}
 						for _, id := range ids {
 							if containsWire(rv, id) {
 								return "ret", 0, rv, true
@@ -1038,7 +1060,10 @@ func (a *Analysis) primRendering(fn *ssa.Function, flip bool) ([]string, error) 
 			var fs []*FieldLayout
 			if hasEvent([]*Path{p}, isRead) {
 				fs = c.extractDec(p.Events, func(ids []int, loop int) (string, int, *Val, bool) {
-					for _, rv := range p.Ret {
+					for ri, rv := range p.Ret {
+						if ri < len(p.RetContent) && p.RetContent[ri] != nil {
+							rv = p.RetContent[ri]
+						}
 						for _, id := range ids {
 							if containsWire(rv, id) {
 								return "ret", 0, rv, true
